@@ -46,6 +46,8 @@ func (s stub) GetHeaderValue(r *http.Request) (string, error) {
 		return "", nil
 	case "x":
 		return "", errors.New("stub failure")
+	case "p":
+		panic("stub injector panics")
 	}
 	return "proxy-value-" + fmt.Sprint(s.idx), nil
 }
@@ -396,6 +398,97 @@ func runCases(t *testing.T, rep *ev.Report, set string, inj []reverseproxy.Heade
 	}
 }
 
+// runPanicPart: a fourth injector outcome - the injector panics (user code on client-controlled data). Whatever the
+// handler makes of that (the request is aborted, or it is forwarded without that fingerprint), the backend must not
+// receive a client-supplied value under ANY configured name, in particular not under the names of the injectors that
+// come after the one that panicked. One fresh connection per request (an aborted HTTP/1.1 exchange ends its connection).
+func runPanicPart(t *testing.T, rep *ev.Report, shard, of int) {
+	names := []string{"X-JA3-Fingerprint", "X-Fp-Two", "x-lower-name"}
+	inj := []reverseproxy.HeaderInjector{stub{names[0], 0}, stub{names[1], 1}, stub{names[2], 2}}
+	k := 0
+	for _, proto := range []string{"h1", "h2"} {
+		for pos := 0; pos < 3; pos++ {
+			for _, other := range []string{"v", "e", "x"} {
+				for _, va := range variants {
+					if proto == "h2" && !va.h2ok || va.name == "absent" {
+						continue
+					}
+					k++
+					if k%of != shard {
+						continue
+					}
+					seg := []string{other, other, other}
+					seg[pos] = "p"
+					path := strings.Join(seg, "-")
+					var lines [][2]string
+					for _, n := range names {
+						lines = append(lines, va.lines(n)...)
+					}
+					hdr, tr := splitLines(lines)
+					if len(tr) > 0 {
+						continue
+					}
+					desc := fmt.Sprintf("%s injector %d panics, others %s, client supplies every name (%s)", proto, pos, other, va.name)
+					res := bubble.Run(t, func() {
+						st := bubble.NewStack(bubble.StackOpts{Injectors: inj})
+						defer st.Shutdown()
+						hello := helloChromeH1
+						if proto == "h2" {
+							hello = helloChrome
+						}
+						cl := st.Connect(proto, nil, hello)
+						synctest.Wait()
+						if done, err := cl.Handshake(); !done || err != nil {
+							rep.HarnessError("panic part: handshake %s: done=%v err=%v", proto, done, err)
+							return
+						}
+						if proto == "h1" {
+							var sb strings.Builder
+							fmt.Fprintf(&sb, "GET /%s HTTP/1.1\r\nHost: localhost\r\n", path)
+							for _, l := range hdr {
+								fmt.Fprintf(&sb, "%s: %s\r\n", l[0], l[1])
+							}
+							sb.WriteString("\r\n")
+							cl.Write([]byte(sb.String()))
+						} else {
+							cl.Write([]byte(h2wire.Preface))
+							cl.Write(h2wire.Settings())
+							fs := []h2wire.HF{{":method", "GET"}, {":scheme", "https"}, {":authority", "localhost"}, {":path", "/" + path}}
+							for _, l := range hdr {
+								fs = append(fs, h2wire.HF{Name: strings.ToLower(l[0]), Value: l[1]})
+							}
+							cl.Write(h2wire.Headers(1, cl.Enc.Block(fs...), true, true, nil, -1))
+						}
+						synctest.Wait()
+						rep.Add("evaluations", 1)
+						rep.Add("panicking_injector_requests", 1)
+						rep.Note("distinct_nontrivial", "panic|"+desc)
+						all := st.Backend.All()
+						rep.Note("panic_part_outcomes", fmt.Sprintf("forwarded=%d", len(all)))
+						for _, got := range all {
+							for _, n := range names {
+								for _, v := range got.Values(n) {
+									if strings.HasPrefix(v, "forged") || v == "" {
+										rep.Violate(map[string]any{"kind": "client-value-reaches-backend", "proto": proto, "injector_outcome": "panic", "set": "stubs", "header": n},
+											map[string]any{"proto": proto, "path": path, "client_lines": lines, "backend_header": got.Header},
+											"%s: the backend received the client's %q under %s", desc, v, n)
+									}
+								}
+							}
+						}
+					})
+					if res.Panic != nil {
+						rep.HarnessError("panic part %s: %v\n%s", desc, res.Panic, res.Stack)
+					}
+					if res.Hang != "" {
+						rep.HarnessError("panic part %s: hang %s", desc, res.Hang)
+					}
+				}
+			}
+		}
+	}
+}
+
 func TestCheck(t *testing.T) {
 	rep := ev.New("C05", "exploration")
 	defer rep.Write()
@@ -512,6 +605,7 @@ func TestCheck(t *testing.T) {
 	_ = append(fingerproxy.DefaultHeaderInjectors(), stub{"X-Other-Tenant-FP", 0})
 	split("default+custom", setC, casesC, true)
 	rep.Info["cases_total"] = len(casesA) + len(casesB) + len(casesC)
+	runPanicPart(t, rep, shard, of)
 	for pass := 0; pass < 3; pass++ {
 		prefill = pass == 1
 		lateInjectors = pass == 2
